@@ -1,5 +1,5 @@
 (** Extraction of the C14 models (ExtrOcamlBasic only). *)
 From Coq Require Extraction.
 From Coq Require ExtrOcamlBasic.
-From RimeV Require Import Base.Bytes CfgC.Str CfgC.Tree CfgC.Spec CfgC.Impl.
-Extraction "c14_model.ml" byte_of_N N_of_byte spec_link compile_spec compile_impl resource_tree loaded_ids relink to_resource_id.
+From RimeV Require Import Base.Bytes CfgC.Str CfgC.Tree CfgC.Spec CfgC.Impl CfgC.TermProofs.
+Extraction "c14_model.ml" byte_of_N N_of_byte spec_link compile_spec compile_impl resource_tree loaded_ids relink to_resource_id fuel_bound.
